@@ -573,8 +573,19 @@ def control_run(case, P, run):
     jac = lambda xs: P.sign * (P.Q @ unsc(xs) + P.c) * sf / sx
     big = 1e30
     cons = []
+    x0s_ = (P.x0 + ax) * sx
     for K, C in enumerate(P.cons):
         sg, ag = run['con_s'][K], run['con_a'][K]
+        if C.linear and opt not in OLD_STYLE and not C.eq:
+            # like the driver: one LinearConstraint(A, lb - y0, ub - y0, keep_feasible=True) for a linear=True constraint
+            from scipy.optimize import LinearConstraint
+            A = np.array([J_ref(C, unsc(x0s_))[j] * sg[j] / sx for j in range(C.size)])
+            g0 = np.array([(g_ref(C, unsc(x0s_))[j] + ag[j]) * sg[j] for j in range(C.size)])
+            y0 = g0 - A @ x0s_
+            lo_ = np.array([(C.lo[j] + ag[j]) * sg[j] - y0[j] if np.isfinite(C.lo[j]) else -np.inf for j in range(C.size)])
+            up_ = np.array([(C.up[j] + ag[j]) * sg[j] - y0[j] if np.isfinite(C.up[j]) else np.inf for j in range(C.size)])
+            cons.append(LinearConstraint(A, lo_, up_, keep_feasible=True))
+            continue
         for j in range(C.size):
             gs = lambda xs, C=C, j=j, sg=sg, ag=ag: (g_ref(C, unsc(xs))[j] + ag[j]) * sg[j]
             dgs = lambda xs, C=C, j=j, sg=sg: J_ref(C, unsc(xs))[j] * sg[j] / sx
@@ -599,7 +610,9 @@ def control_run(case, P, run):
             else:
                 if C.eq:
                     lo = up = (C.equals[j] + ag[j]) * sg[j]
-                cons.append(NonlinearConstraint(gs, lo, up, jac=dgs))
+                # the driver hands scipy infinite values for missing sides (since 2d4cb2f); the control does the same so
+                # that it stays a like-for-like statement of the problem
+                cons.append(NonlinearConstraint(gs, -np.inf if lo <= -big else lo, np.inf if up >= big else up, jac=dgs))
     blo = np.where(np.isfinite(P.xlo), (P.xlo + ax) * sx, -np.inf)
     bup = np.where(np.isfinite(P.xup), (P.xup + ax) * sx, np.inf)
     if opt in OLD_STYLE:
